@@ -3,6 +3,7 @@ package main
 import (
 	"context"
 	"fmt"
+	"sort"
 
 	"k3l.io/go-eigentrust/pkg/sparse"
 )
@@ -121,6 +122,26 @@ func genC10(r *Rng, tier string) []*Case {
 		}
 		cs = append(cs, mk("OpsHist", h))
 	}
+	// one tall matrix (more than 1024 rows, cells above row 1024): no blocking of the rows may change the transpose
+	{
+		rows, cols := 1030+r.Intn(90), 2+r.Intn(5)
+		m := Mat{Major: rows, Minor: cols, Rows: make([][]Ent, rows)}
+		for k := 0; k < 40; k++ {
+			i, j := r.Intn(rows), r.Intn(cols)
+			if k%2 == 0 {
+				i = 1024 + r.Intn(rows-1024)
+			}
+			dup := false
+			for _, e := range m.Rows[i] {
+				dup = dup || e.I == j
+			}
+			if !dup {
+				m.Rows[i] = append(m.Rows[i], Ent{I: j, V: JFloat(1 + r.Intn(9))})
+				sort.Slice(m.Rows[i], func(a, b int) bool { return m.Rows[i][a].I < m.Rows[i][b].I })
+			}
+		}
+		cs = append(cs, mk("OpsHist", c10Hist{M0: m, Ops: []c10Op{{Op: "transpose"}, {Op: "transpose"}}}))
+	}
 	return cs
 }
 
@@ -192,7 +213,27 @@ func runC10(c *Case) error {
 			} else if m.MajorDim > pm && shrunk {
 				regrown = true
 			}
-			vr, vc := m.TransposeToCSC().Dims()
+			view := m.TransposeToCSC()
+			vr, vc := view.Dims()
+			// row and column views: a row of the CSR matrix has one component per column, a column of the CSC view
+			// one per row; every stored index lies below the vector's dimension
+			_, mc := m.Dims()
+			for i := 0; i < len(m.Entries); i++ {
+				if rv := m.RowVector(i); rv.Dim != mc {
+					panic(fmt.Sprintf("RowVector(%d).Dim = %d on a matrix with %d columns", i, rv.Dim, mc))
+				}
+			}
+			for j := 0; j < len(view.Entries); j++ {
+				cv := view.ColumnVector(j)
+				if cv.Dim != vr {
+					panic(fmt.Sprintf("ColumnVector(%d).Dim = %d on a CSC view with %d rows (and %d columns)", j, cv.Dim, vr, vc))
+				}
+				for _, e := range cv.Entries {
+					if e.Index < 0 || e.Index >= cv.Dim {
+						panic(fmt.Sprintf("ColumnVector(%d) holds index %d >= its dimension %d", j, e.Index, cv.Dim))
+					}
+				}
+			}
 			s := so{matOf(&m.CSMatrix), m.NNZ(), vr, vc}
 			sos = append(sos, s)
 			obs = append(obs, fmt.Sprintf("SO %s %d %d %d", cMat(s.M), s.NNZ, vr, vc))
